@@ -32,6 +32,7 @@ def _classified(rep, f, r):
     rep.add_tlc(r)
     if r.error:
         raise ToolError("TLC error on %s:\n%s" % (f, r.error))
+    rep.cov["out_of_class_events"] = rep.cov.get("out_of_class_events", 0) + len(re.findall(r'^<<"OUTCLASS", \d+>>', r.out, re.M))
     lines = core.read_lines(f) if (r.badlines or r.unconsumed) else None
     details = {}
     for m in re.finditer(r'^<<"DETAIL", (\d+), (.*)$', r.out, re.M):
@@ -211,6 +212,7 @@ def check(seed, tier):
                 "least one was kept; distinct = distinct case hashes",
         "functions": x.get("functions"), "defs_before": x.get("defs_before"), "defs_removed": x.get("defs_removed"),
         "planted_shapes": x.get("planted"), "events_per_stage": x.get("events_per_stage"),
+        "out_of_class_events_accepted_vacuously": rep.cov.get("out_of_class_events", 0),
         "samples": [str(s)[:1500] for s in meta["samples"][:2]], "exhaustive": False, "mc_runs": rep.cov.get("mc_runs"),
         "trusted_base": TRUSTED,
     }, ["extended coverage (not a listed property): statement at the top of spec/Liveness.tla",
